@@ -262,7 +262,7 @@ def _check_table(model, df, sys_=None, ta=25.0, energy=False, phase_arg="", tol=
         if tr_ is None: F.append(fail("total.missing", "no System total row [%s]" % ph, ["C07"]))
         else:
             tp_, tl_ = fl(tr_["Power (W)"]), fl(tr_["Loss (W)"])
-            if not cl(tp_, srcp) or not cl(tl_, losses): F.append(fail("total.sums", "[%s] System total %g/%g != sum of source powers %g / all losses %g" % (ph, tp_, tl_, srcp, losses), ["C07"]))
+            if not cl(tp_, srcp) or not cl(tl_, losses): F.append(fail("total.sums", "[%s] System total %g/%g != sum of source powers %g / all losses %g" % (ph, tp_, tl_, srcp, losses), ["C07", "C02"]))
             te = fl(tr_["Efficiency (%)"])
             if tp_ > 0 and (not close(te, 100 * (tp_ - tl_) / tp_, tol, 100 * tol) or te > 100 * (1 + 1e-4)): F.append(fail("total.eff", "[%s] total efficiency %g" % (ph, te), ["C07"]))
             if (tr_["Warnings"] == "Yes") != anywarn: F.append(fail("total.warn", "[%s] System total warning %r but component warnings %s" % (ph, tr_["Warnings"], anywarn), ["C09"]))
